@@ -187,10 +187,25 @@ func (m attrValues) cacheAttrClaim(cl *camtypes.Claim) {
 	}
 }
 
+// claimPtrsByDateRef sorts claims by date and, for equal dates, by
+// blobref: a total order, so that the result does not depend on the
+// order in which the claims were merged (as they arrived vs. in row order
+// when the corpus is loaded from the index rows).
+type claimPtrsByDateRef []*camtypes.Claim
+
+func (cl claimPtrsByDateRef) Len() int      { return len(cl) }
+func (cl claimPtrsByDateRef) Swap(i, j int) { cl[i], cl[j] = cl[j], cl[i] }
+func (cl claimPtrsByDateRef) Less(i, j int) bool {
+	if !cl[i].Date.Equal(cl[j].Date) {
+		return cl[i].Date.Before(cl[j].Date)
+	}
+	return cl[i].BlobRef.Less(cl[j].BlobRef)
+}
+
 // restoreInvariants sorts claims by date and
 // recalculates latest attributes.
 func (pm *PermanodeMeta) restoreInvariants(signers signerFromBlobrefMap) error {
-	sort.Sort(camtypes.ClaimPtrsByDate(pm.Claims))
+	sort.Sort(claimPtrsByDateRef(pm.Claims))
 	pm.attr = make(attrValues)
 	pm.signer = make(map[string]attrValues)
 	for _, cl := range pm.Claims {
@@ -207,7 +222,7 @@ func (pm *PermanodeMeta) restoreInvariants(signers signerFromBlobrefMap) error {
 func (pm *PermanodeMeta) fixupLastClaim(signers signerFromBlobrefMap) error {
 	if pm.attr != nil {
 		n := len(pm.Claims)
-		if n < 2 || camtypes.ClaimPtrsByDate(pm.Claims).Less(n-2, n-1) {
+		if n < 2 || claimPtrsByDateRef(pm.Claims).Less(n-2, n-1) {
 			// already sorted, update Attrs from new Claim
 			return pm.appendAttrClaim(pm.Claims[n-1], signers)
 		}
